@@ -152,16 +152,16 @@ def oracle(ck):
             if len(idx2) and np.max(np.abs(yv2[idx2] - p(idx2 + sv[idx2]))) > 1e-8 * float(np.sum(np.abs(tp))) * 5:
                 ck.violation("time-varying shift does not interpolate a degree-%d polynomial at interior samples (order %d)" % (deg, order), inp, tag="varying")
     # per-sample shifts that differ only slightly from each other: every sample still uses its OWN fractional delay
-    for order in (3, 5, 31):
+    for order, drift in ((3, 4e-6), (3, 5e-7), (5, 4e-6), (31, 1e-6), (31, 1.2e-5)):
         h = (order + 1) // 2; N = 200
-        sv = 2.5 + 4e-6 * np.arange(N) / N * ck.rng.choice([1.0, 3.0])
+        sv = 2.5 + drift * np.arange(N) / N
         xr = np.array([ck.rng.uniform(-1, 1) for _ in range(N)])
         yv = np.asarray(timeshift(xr, sv, order=order))
         idx = np.arange(h + 4, N - h - 4)
         ref = np.array([np.asarray(timeshift(xr, np.array(float(sv[i])), order=order))[i] for i in idx])
         if np.max(np.abs(yv[idx] - ref)) > 1e-11 * (1 + np.max(np.abs(ref))):
             ck.violation("time-varying shifts 2.5 + tiny drift: sample-wise result differs from the constant-shift path called per sample by %g (order %d)" % (float(np.max(np.abs(yv[idx] - ref))), order),
-                         dict(order=order, shifts="2.5 + 4e-6*n/N"), tag="drift")
+                         dict(order=order, shifts="2.5 + %g*n/N" % drift), tag="drift")
     # DataFrame wrapper on frames whose index is not 0..N-1 (after truncation, time-stamped): positional, not label, assignment
     base = pd.DataFrame({"a": np.sin(np.arange(120) / 5.0)})
     for lab, frame in (("sliced", base.iloc[20:100]), ("time index", base.set_index(pd.Index(np.arange(120) * 0.25 + 1000.0)))):
